@@ -175,6 +175,10 @@ func c16Once(st *c16State, op c16Op, g, i int, mode string) string {
 		paths := []string{st.tree}
 		if op.Arg%4 == 1 {
 			paths = []string{filepath.Join(st.tree, "sub"), filepath.Join(st.tree, "a.txt")}
+			if _, err := os.Lstat(filepath.Join(st.tree, "er")); err == nil {
+				// several roots, each with symlinks of its own, some reaching the same link
+				paths = []string{filepath.Join(st.tree, "sub", "deep"), filepath.Join(st.tree, "er"), filepath.Join(st.tree, "more"), filepath.Join(st.tree, "a.txt")}
+			}
 		}
 		m, err := intoto.RecordArtifacts(paths, []string{"sha256"}, nil, []string{st.tree + "/"}, op.Arg%2 == 0, op.Arg%3 != 0)
 		return res(m, err)
@@ -258,10 +262,27 @@ func c16Once(st *c16State, op c16Op, g, i int, mode string) string {
 		}
 		return res(l.GetPayload(), nil)
 	case "loadkey":
-		var k intoto.Key
-		tk := hx.PoolKey(hx.CheapPoolNames()[(g+op.Arg)%len(hx.CheapPoolNames())])
-		err := k.LoadKeyReaderDefaults(strings.NewReader(string(tk.PKCS8PEM())))
-		return res(k.KeyID, err)
+		// eight of ~120 distinct PEM texts (keys x private/public form x trailing blank lines) per call
+		names := hx.CheapPoolNames()
+		var ids []string
+		for j := 0; j < 8; j++ {
+			v := (g*7 + op.Arg*13 + j*5) % (len(names) * 8)
+			tk := hx.PoolKey(names[v%len(names)])
+			text := string(tk.PKCS8PEM())
+			if (v/len(names))%2 == 1 {
+				text = string(tk.PKIXPEM())
+			}
+			text += strings.Repeat("\n", (v/len(names))/2)
+			var k intoto.Key
+			if err := k.LoadKeyReaderDefaults(strings.NewReader(text)); err != nil {
+				return res(nil, err)
+			}
+			if k.KeyID != tk.KeyID || (k.KeyVal.Private != "") != ((v/len(names))%2 == 0) {
+				return fmt.Sprintf("loaded key %s (private half: %v) from the text of key %s (form %d)", k.KeyID, k.KeyVal.Private != "", tk.KeyID, (v/len(names))%2)
+			}
+			ids = append(ids, k.KeyID[:8])
+		}
+		return res(ids, nil)
 	case "verify":
 		b := st.built
 		runDir := filepath.Join(st.dir, fmt.Sprintf("rundir-%s-%d", mode, i))
